@@ -361,9 +361,9 @@ def check_sibling_sources(out: Outcome, kind, rng, root):
                     mine.append(c)
             unexplained -= set(mine)
             if not mine:
-                out.fail('correspondence', 'model-cache-name', {'kind': kind, 'source': src, 'cache_files': caches}, expected='a file named <name minus last suffix>.' + '.'.join(tmpl) + '.<8 hex>.cache',
-                         observed=caches)
-                return
+                # the FORMAT of the default name is not part of the property: a loader that names its cache files differently is not a
+                # finding as long as the files stay distinct (checked below); recorded in the evidence
+                out.count('cache-name-format-differs-from-model')
         if len(caches) != len([r for r in runs if r[2][0] == 'ok']):
             out.fail('property', 'distinct-default-cache-files', {'kind': kind, 'sources': [Path(k['xml_file' if kind == 'vasprun' else 'coords_file']).name for _, k, _ in runs], 'cache_files': caches},
                      expected='one default cache file per source file', observed=caches)
